@@ -15,3 +15,4 @@ INVARIANT Inv_NoPolicy
 INVARIANT Inv_Override
 INVARIANT Inv_Counts
 INVARIANT Inv_Exact
+PROPERTY Live
